@@ -145,6 +145,8 @@ def flatten_group(s, k, hybrid=False):
     alts, lens = [], []
     for i in range(k):
         bss = [h.boundset('a%d_%d' % (i, j))[0] for j in range(2)]
+        for b in bss:
+            h.wf.append(NOT(AND(h.lower_pred(b).tag == 2, h.upper_pred(b).tag == 2)))      # the parser never yields the fully unbounded interval
         ln = z3.BitVec('alen%d' % i, 64)
         h.wf.append(z3.ULE(ln, 1))          # what `range` produces: at most one interval per alternative (fold obligation above)
         alts.append(Vc(inner_t, ln, bss + [None] * (inner_t.cap - 2), 2))
